@@ -420,7 +420,20 @@ func (p c18) Run(c *core.Ctx, idx int) {
 					src = jn
 				}
 			}
-			if run(func(sel *node.Selection) error { return sel.UpsertFrom(src) }) {
+			viaLeaf := r.Intn(3) == 0
+			if viaLeaf {
+				desc = fmt.Sprintf("SetValue on key leaf %s of entry %q to %q (%s)", k0.Name, pth.String(), newKey, target0)
+			}
+			if run(func(sel *node.Selection) error {
+				if viaLeaf {
+					lsel, e := sel.Find(k0.Name)
+					if e != nil || lsel == nil {
+						return fmt.Errorf("verif: key leaf not found: %v", e)
+					}
+					return lsel.Set(dp.ToVal(k0.Type, &dp.LVal{V: []string{newKey}}))
+				}
+				return sel.UpsertFrom(src)
+			}) {
 				return
 			}
 			if err != nil {
